@@ -41,6 +41,29 @@ func closeReach(c *core.Ctx, m *ssa.Function) []*ssa.Function {
 			if cal := core.StaticCallee(call); cal != nil && cal.Pkg != nil && core.IsModule(cal.Pkg.Pkg) {
 				add(cal, d-1)
 			}
+			// functions handed over as values (`once.Do(s.closeSockets)`): method values are wrapped in a synthetic
+			// function that forwards to the method
+			for _, a := range call.Common().Args {
+				var fv *ssa.Function
+				switch x := a.(type) {
+				case *ssa.MakeClosure:
+					fv, _ = x.Fn.(*ssa.Function)
+				case *ssa.Function:
+					fv = x
+				}
+				if fv == nil {
+					continue
+				}
+				if fv.Synthetic != "" {
+					for _, c2 := range core.Calls(fv) {
+						if g := core.StaticCallee(c2); g != nil && g.Pkg != nil && core.IsModule(g.Pkg.Pkg) {
+							add(g, d-1)
+						}
+					}
+				} else if fv.Pkg != nil && core.IsModule(fv.Pkg.Pkg) {
+					add(fv, d-1)
+				}
+			}
 		}
 	}
 	add(m, 3)
